@@ -3,6 +3,7 @@ open Ast
 open BinNat
 open BinNums
 open Bool
+open Context
 open Datatypes
 open DcViews
 open Json
@@ -666,15 +667,149 @@ let extras c model_out =
                                     (true, true, true, true, true, false,
                                     true, false)), (String ((Ascii (true,
                                     true, false, false, true, true, true,
-                                    false)), (String ((Ascii (false, false,
-                                    true, false, true, true, true, false)),
-                                    (String ((Ascii (false, true, false,
+                                    false)), (String ((Ascii (true, false,
+                                    false, true, false, true, true, false)),
+                                    (String ((Ascii (false, false, true,
                                     false, true, true, true, false)), (String
-                                    ((Ascii (true, false, false, true, false,
-                                    true, true, false)), (String ((Ascii
-                                    (false, false, false, false, true, true,
-                                    true, false)),
-                                    EmptyString))))))))))))))))))),
+                                    ((Ascii (true, false, true, false, false,
+                                    true, true, false)),
+                                    EmptyString))))))))))))))))),
+  (if alt_ok
+   then (match find_site real with
+         | Some a ->
+           (match find_site
+                    (dec
+                      (jfield_d (String ((Ascii (true, true, true, true,
+                        false, true, true, false)), (String ((Ascii (true,
+                        false, true, false, true, true, true, false)),
+                        (String ((Ascii (false, false, true, false, true,
+                        true, true, false)), (String ((Ascii (false, false,
+                        false, false, true, true, true, false)), (String
+                        ((Ascii (true, false, true, false, true, true, true,
+                        false)), (String ((Ascii (false, false, true, false,
+                        true, true, true, false)), EmptyString))))))))))))
+                        alt)) with
+            | Some b ->
+              b2s
+                (jv_eqb (canon_in real_j (enc a))
+                  (canon_in
+                    (jfield_d (String ((Ascii (true, true, true, true, false,
+                      true, true, false)), (String ((Ascii (true, false,
+                      true, false, true, true, true, false)), (String ((Ascii
+                      (false, false, true, false, true, true, true, false)),
+                      (String ((Ascii (false, false, false, false, true,
+                      true, true, false)), (String ((Ascii (true, false,
+                      true, false, true, true, true, false)), (String ((Ascii
+                      (false, false, true, false, true, true, true, false)),
+                      EmptyString)))))))))))) alt) (enc b)))
+            | None ->
+              s_ (String ((Ascii (false, true, true, true, false, true, true,
+                false)), (String ((Ascii (true, true, true, true, false,
+                true, true, false)), (String ((Ascii (false, true, true,
+                true, false, true, true, false)), (String ((Ascii (true,
+                false, true, false, false, true, true, false)),
+                EmptyString)))))))))
+         | None ->
+           s_ (String ((Ascii (false, true, true, true, false, true, true,
+             false)), (String ((Ascii (true, true, true, true, false, true,
+             true, false)), (String ((Ascii (false, true, true, true, false,
+             true, true, false)), (String ((Ascii (true, false, true, false,
+             false, true, true, false)), EmptyString)))))))))
+   else s_ (String ((Ascii (false, true, true, true, false, true, true,
+          false)), (String ((Ascii (true, true, true, true, false, true,
+          true, false)), (String ((Ascii (false, true, true, true, false,
+          true, true, false)), (String ((Ascii (true, false, true, false,
+          false, true, true, false)), EmptyString)))))))))) :: (((s_ (String
+                                                                   ((Ascii
+                                                                   (true,
+                                                                   false,
+                                                                   false,
+                                                                   false,
+                                                                   false,
+                                                                   true,
+                                                                   true,
+                                                                   false)),
+                                                                   (String
+                                                                   ((Ascii
+                                                                   (false,
+                                                                   false,
+                                                                   true,
+                                                                   true,
+                                                                   false,
+                                                                   true,
+                                                                   true,
+                                                                   false)),
+                                                                   (String
+                                                                   ((Ascii
+                                                                   (false,
+                                                                   false,
+                                                                   true,
+                                                                   false,
+                                                                   true,
+                                                                   true,
+                                                                   true,
+                                                                   false)),
+                                                                   (String
+                                                                   ((Ascii
+                                                                   (true,
+                                                                   true,
+                                                                   true,
+                                                                   true,
+                                                                   true,
+                                                                   false,
+                                                                   true,
+                                                                   false)),
+                                                                   (String
+                                                                   ((Ascii
+                                                                   (true,
+                                                                   true,
+                                                                   false,
+                                                                   false,
+                                                                   true,
+                                                                   true,
+                                                                   true,
+                                                                   false)),
+                                                                   (String
+                                                                   ((Ascii
+                                                                   (false,
+                                                                   false,
+                                                                   true,
+                                                                   false,
+                                                                   true,
+                                                                   true,
+                                                                   true,
+                                                                   false)),
+                                                                   (String
+                                                                   ((Ascii
+                                                                   (false,
+                                                                   true,
+                                                                   false,
+                                                                   false,
+                                                                   true,
+                                                                   true,
+                                                                   true,
+                                                                   false)),
+                                                                   (String
+                                                                   ((Ascii
+                                                                   (true,
+                                                                   false,
+                                                                   false,
+                                                                   true,
+                                                                   false,
+                                                                   true,
+                                                                   true,
+                                                                   false)),
+                                                                   (String
+                                                                   ((Ascii
+                                                                   (false,
+                                                                   false,
+                                                                   false,
+                                                                   false,
+                                                                   true,
+                                                                   true,
+                                                                   true,
+                                                                   false)),
+                                                                   EmptyString))))))))))))))))))),
   (b2s
     (if alt_ok
      then jv_eqb (enc (strip_hints real))
@@ -686,7 +821,7 @@ let extras c model_out =
               (true, false, true, false, true, true, true, false)), (String
               ((Ascii (false, false, true, false, true, true, true, false)),
               EmptyString)))))))))))) alt)
-     else true))) :: []))))))))))))
+     else true))) :: [])))))))))))))
 
 (** val regex_table : jv -> str -> bool **)
 
